@@ -68,6 +68,9 @@ def ensure_parser():
     bnf = os.path.join(REPO, "pkg/parsing/mlr.bnf")
     key = _sha(bnf)[:16]
     gen = os.path.join(BUILD, "parser-%s.go" % key)
+    shared = os.path.join(VERIF, "build", "parser-%s.go" % key)
+    if not os.path.exists(gen) and os.path.exists(shared):
+        gen = shared            # the regenerated parser depends only on mlr.bnf: reuse it
     if not os.path.exists(gen):
         log("[build] regenerating parser from mlr.bnf (%s) ..." % key)
         tmpj = os.path.join(BUILD, "parser-%s.json.tmp" % key)
